@@ -112,6 +112,8 @@ func OptSets() []OptSet {
 		{"AllowInvalidUTF8", []jsontext.Options{jsontext.AllowInvalidUTF8(true)}, refjson.FmtOpts{AllowUTF8: true}},
 		{"Indent+Prefix", []jsontext.Options{jsontext.WithIndentPrefix(" "), jsontext.WithIndent("  "), jsontext.SpaceAfterColon(false)}, refjson.FmtOpts{Multiline: true, Prefix: " ", Indent: "  "}},
 		{"SpaceAfterColon+Comma", []jsontext.Options{jsontext.SpaceAfterColon(true), jsontext.SpaceAfterComma(true)}, refjson.FmtOpts{SpaceColon: true, SpaceComma: true}},
+		{"IndentPrefix alone", []jsontext.Options{jsontext.WithIndentPrefix("  ")}, refjson.FmtOpts{Multiline: true, Prefix: "  ", Indent: "\t", SpaceColon: true}},
+		{"Indent alone", []jsontext.Options{jsontext.WithIndent("  ")}, refjson.FmtOpts{Multiline: true, Indent: "  ", SpaceColon: true}},
 		{"SpaceAfterComma", []jsontext.Options{jsontext.SpaceAfterComma(true)}, refjson.FmtOpts{SpaceComma: true}},
 		{"SpaceAfterColon", []jsontext.Options{jsontext.SpaceAfterColon(true)}, refjson.FmtOpts{SpaceColon: true}},
 		{"EscapeForHTML+JS", []jsontext.Options{jsontext.EscapeForHTML(true), jsontext.EscapeForJS(true)}, refjson.FmtOpts{HTML: true, JS: true}},
@@ -433,8 +435,24 @@ func bfs(r *evid.Run, o *OptSet, alpha []Op, depth, hist int, states map[string]
 					for _, x := range cur {
 						m.Apply(alpha[x].M)
 					}
-					// rejected calls do not change the model state but are distinct histories of it
-					key := m.Key()
+					// rejected calls do not change the model state but are distinct histories of it: a history is
+					// classified by the kind of its most recent rejected call (a rejected call may leave hidden
+					// state behind), and each (state, class) keeps its own histories
+					m2 := refjson.NewEncModel(o.M)
+					rej := "-"
+					for _, x := range cur {
+						if !m2.Apply(alpha[x].M) {
+							switch {
+							case alpha[x].M.Raw:
+								rej = "V"
+							case strings.ContainsRune("{}[]", rune(alpha[x].M.Kind)):
+								rej = string(rune(alpha[x].M.Kind))
+							default:
+								rej = "t"
+							}
+						}
+					}
+					key := m.Key() + "|" + rej
 					nmu.Lock()
 					if seen[key] < hist {
 						seen[key]++
@@ -455,7 +473,7 @@ func bfs(r *evid.Run, o *OptSet, alpha []Op, depth, hist int, states map[string]
 		states[o.Name+"#"+key] = struct{}{}
 	}
 	mu.Unlock()
-	r.Bound("phase 2: option set %q: BFS to depth %d over model states (%d states, <=%d histories each), every state x every op", o.Name, depth, len(seen), hist)
+	r.Bound("phase 2: option set %q: BFS to depth %d over model states (%d states, <=%d histories per class of most recent rejected call), every state x every op", o.Name, depth, len(seen), hist)
 }
 
 // wide: objects with N names around the linear-search -> map switch of the duplicate-name set
